@@ -108,7 +108,7 @@ func c11ShrinkRestore(c *core.Ctx) {
 
 func recvName(fn *ssa.Function) string {
 	if len(fn.Params) > 0 {
-		return fn.Params[0].Name()
+		return core.ParamName(fn.Params[0])
 	}
 	return "?"
 }
